@@ -158,7 +158,8 @@ def run_one(seed, tape, opts):
     DILATE_LISTEN[0] = bool(opts.get("dilate_listen"))
     variant = opts.get("variant", "same")
     welcome = {"error": "sim says no"} if variant == "welcome_error" else {}
-    w = MailboxWorld(tape, dict(opts, late_words=True), welcome=welcome)
+    w = MailboxWorld(tape, dict(opts, late_words=True, wordlist_cb=True),
+                     welcome=welcome)
     sim = w.sim
     dil = bool(opts.get("dilate"))
     apis = ("deferred", "delegate")
